@@ -52,16 +52,18 @@ Fixpoint update_nth {A} (n : nat) (f : A -> option A) (l : list A) : option (lis
   | x :: r, O => option_map (fun y => y :: r) (f x)
   | x :: r, S n' => option_map (cons x) (update_nth n' f r)
   end.
+(* one or several `;`-separated entries added to a map *)
+Definition parse_entries (m : pmap) (ents : bytes) : option pmap := fold_left parse_entry (split_on x3b ents []) (Some m).
 Definition apply_update (p : pset) (u : bytes) : option pset :=
   match split_on x3a u [] with
   | [tgt; ent] =>
       match tgt with
       | t :: pos =>
-          if byte_eqb t x47 then option_map (fun g => mkpset g (pinputs p) (poutputs p)) (parse_entry (Some (pglobal p)) ent)
+          if byte_eqb t x47 then option_map (fun g => mkpset g (pinputs p) (poutputs p)) (parse_entries (pglobal p) ent)
           else match N_of_dec pos with
                | Some n =>
-                   if byte_eqb t x49 then option_map (fun l => mkpset (pglobal p) l (poutputs p)) (update_nth (N.to_nat n) (fun m => parse_entry (Some m) ent) (pinputs p))
-                   else if byte_eqb t x4f then option_map (fun l => mkpset (pglobal p) (pinputs p) l) (update_nth (N.to_nat n) (fun m => parse_entry (Some m) ent) (poutputs p))
+                   if byte_eqb t x49 then option_map (fun l => mkpset (pglobal p) l (poutputs p)) (update_nth (N.to_nat n) (fun m => parse_entries m ent) (pinputs p))
+                   else if byte_eqb t x4f then option_map (fun l => mkpset (pglobal p) (pinputs p) l) (update_nth (N.to_nat n) (fun m => parse_entries m ent) (poutputs p))
                    else None
                | None => None end
       | [] => None end
@@ -74,7 +76,7 @@ Definition show_uid_cmp (a b : outcome bytes) : bytes :=
   | _, _ => "differ "%lb ++ res_word a ++ sp ++ res_word b
   end.
 
-(* cases:  lt <pset> | rt <tx> | ex <pset> | uid <pset> <update> *)
+(* cases:  lt <pset> | rt <tx> | ex <pset> | uid <pset> <update> | upd <pset> <target>:<entry>;<entry>.. *)
 Definition run (args : list bytes) : bytes :=
   match args with
   | [k; a] =>
@@ -89,6 +91,13 @@ Definition run (args : list bytes) : bytes :=
       if bytes_eqb k "uid"%lb then
         match parse_pset a with
         | Some p => match apply_update p u with Some q => show_uid_cmp (run_uid p) (run_uid q) | None => err "update" end
+        | None => err "parse" end
+      else if bytes_eqb k "upd"%lb then
+        match parse_pset a with
+        | Some p => match apply_update p u with
+                    | Some q => "uid="%lb ++ show_uid_cmp (run_uid p) (run_uid q) ++ " tx="%lb ++
+                                (if bytes_eqb (show_ex (extract_tx p)) (show_ex (extract_tx q)) then "same"%lb else "changed"%lb)
+                    | None => err "update" end
         | None => err "parse" end
       else err "kind"
   | _ => err "args" end.
